@@ -690,7 +690,8 @@ func (g *Registry) referrers(req *http.Request, rec *ReqRecord, repo *RegRepo, r
 		g.reject(rec, "query parameter "+k+" not defined for referrers")
 	}
 	if !g.Prof.ReferrersAPI {
-		return g.errResp(req, 404, "UNKNOWN")
+		// a registry that predates the endpoint routes the path to its manifest handler: 404 MANIFEST_UNKNOWN
+		return g.errResp(req, 404, "MANIFEST_UNKNOWN")
 	}
 	list := repo.ReferrersOf(digest.Digest(ref))
 	h := http.Header{"Content-Type": {ocispec.MediaTypeImageIndex}}
